@@ -125,6 +125,14 @@ def main():
     with ProcessPoolExecutor(max_workers=16, max_tasks_per_child=1) as ex:
         res = list(ex.map(run_one, jobs))
     import collections
+    # a function may be verified by several jobs (own contract + refinements of interface contracts): a mutant is noticed if ANY job refutes it
+    order = {"refuted": 0, "undecided(unknown)": 1, "undecided(out-of-subset)": 2, "SURVIVED": 3}
+    best = {}
+    for r in res:
+        k = (r["function"].split(":")[0], r["mutant"])
+        if k not in best or order[r["verdict"]] < order[best[k]["verdict"]]:
+            best[k] = r
+    res = list(best.values())
     c = collections.Counter(r["verdict"] for r in res)
     print(f"{a.prop}: {len(res)} mutants:", dict(c), f"{round(time.time() - t0)} s")
     for r in res:
